@@ -44,13 +44,12 @@
 #define VSPACE(c) ((c) == ' ' || ((c) >= '\t' && (c) <= '\r'))
 
 
-/* ---- loop invariants of spifconf_parse (bounded unit C09.parse: slots 1..VERIF_MAX_NEST of the file stack and
- *      0..VERIF_MAX_CTX of the context stack are spelled out; see units/C09/parse.c) ---------------------- */
+/* ---- loop invariants of spifconf_parse (bounded unit C09.parse: slots 1..2 of the file stack are spelled
+ *      out; see units/C09/parse.c) ------------------------------------------------------------------ */
 #define PARSE_FS_ENTRY(J)  ((J) > fstate_idx || (fstate[(J)].fp != NULL && (fstate[(J)].flags & FILE_PREPROC) == 0))
 #define PARSE_INV \
-    (FSTK_POST && CTXSTK_POST && fstate_idx <= VERIF_MAX_NEST && PARSE_FS_ENTRY(1) && PARSE_FS_ENTRY(2) && \
-     ctx_state_idx <= VERIF_MAX_CTX && CTXID_AT(0) && CTXID_AT(1) && CTXID_AT(2) && CTXID_AT(3) && CTXID_AT(vg_k) && \
-     !vg_exc && !vg_fg_hdr && vg_fg_budget <= 0xffffffffUL && vg_open_streams == vg_os0 + fstate_idx)
+    (FSTK_POST && fstate_cnt >= 4 && fstate_idx <= VERIF_MAX_NEST && PARSE_FS_ENTRY(1) && PARSE_FS_ENTRY(2) && \
+     !vg_fg_hdr && vg_fg_budget <= 0xffffffffUL && vg_open_streams == vg_os0 + fstate_idx)
 #endif /* VERIF_CONF_SPEC_H */
 
 #ifndef VERIF_CONF_SPEC_ONLY
@@ -95,6 +94,9 @@ __CPROVER_ensures(fstate_idx == __CPROVER_old(fstate_idx) + 1 && __CPROVER_retur
 __CPROVER_ensures(fstate[fstate_idx].fp == fp && fstate[fstate_idx].path == path && fstate[fstate_idx].outfile == outfile
                   && fstate[fstate_idx].line == (spif_uint32_t) line && fstate[fstate_idx].flags == flags)
 __CPROVER_ensures(FSTK_KEEP(vg_k))
+/* the table moves only when it has to grow */
+__CPROVER_ensures((unsigned int) __CPROVER_old(fstate_idx) + 1 == __CPROVER_old(fstate_cnt) ||
+                  (fstate == __CPROVER_old(fstate) && fstate_cnt == __CPROVER_old(fstate_cnt)))
 ;
 #endif /* VERIF_CT_REGISTER */
 
@@ -269,16 +271,21 @@ static unsigned char v_file_push(FILE *fp, spif_charptr_t path, spif_charptr_t o
     _Bool has_k = vg_k <= old_idx, has_k2 = vg_k2 <= old_idx;
     if (has_k) keep_k = fstate[vg_k];
     if (has_k2) keep_k2 = fstate[vg_k2];
-    unsigned int cnt = nondet_uint();
-    __CPROVER_assume(cnt >= 1 && cnt <= 512);
-    if (nondet_bool()) {
-        free(fstate);
-        fstate = (fstate_t *) malloc(sizeof(fstate_t) * (size_t) cnt);
+    if ((unsigned int) old_idx + 1 == fstate_cnt) {
+        /* the table may move only when it has to grow */
+        unsigned int cnt = nondet_uint();
+        __CPROVER_assume(cnt >= 1 && cnt <= 512);
+        if (nondet_bool()) {
+            free(fstate);
+            fstate = (fstate_t *) malloc(sizeof(fstate_t) * (size_t) cnt);
+        } else {
+            __CPROVER_assume(cnt == fstate_cnt);
+            __CPROVER_havoc_object(fstate);
+        }
+        fstate_cnt = cnt;
     } else {
-        __CPROVER_assume(cnt == fstate_cnt);
         __CPROVER_havoc_object(fstate);
     }
-    fstate_cnt = cnt;
     fstate_idx = (unsigned char) (old_idx + 1);
     __CPROVER_assume(fstate_idx < fstate_cnt);
     fstate[fstate_idx].fp = fp;
@@ -521,6 +528,7 @@ __CPROVER_ensures(__CPROVER_return_value == NULL ? vg_fg_mid == __CPROVER_old(vg
 # define PL_BEHAVIOUR
 #endif
 
+#ifndef VERIF_PL_PROJECT_FSTACK
 void spifconf_parse_line(FILE *fp, spif_charptr_t buff)
 /* ---- preconditions: the call site in spifconf_parse (line buffer of CONFIG_BUFF bytes just
  *      filled by fgets with a complete line) and the initialised subsystem ---------------- */
@@ -592,7 +600,7 @@ PL_ENS(!((PL_TEXT || PL_BEGIN) && PL_SKIP) || (PL_NOCALL && PL_CTX_SAME && fstat
 PL_ENS(!PL_PCT || (PL_NOCALL && PL_CTX_SAME))
 /* ---- a file is pushed only by a %directive; the new entry is a newly opened stream -------- */
 PL_ENS(fstate_idx == __CPROVER_old(fstate_idx) ||
-                  (PL_PCT && vg_open_streams == __CPROVER_old(vg_open_streams) + 1 &&
+                  (PL_PCT && vg_open_streams == __CPROVER_old(vg_open_streams) + 1 && fstate_idx <= VERIF_MAX_NEST &&
                    __CPROVER_is_fresh(fstate[fstate_idx].fp, sizeof(FILE)) && fstate[fstate_idx].line == 1 &&
                    fstate[fstate_idx].flags == 0 && fstate[fstate_idx].outfile == NULL && fstate[fstate_idx].path != NULL))
 PL_ENS(fstate_idx != __CPROVER_old(fstate_idx) || vg_open_streams == __CPROVER_old(vg_open_streams))
@@ -604,20 +612,56 @@ PL_ENS(fstate_idx == __CPROVER_old(fstate_idx) ? (fstate[fstate_idx].path == __C
                                                : PL_FS_KEEP(__CPROVER_old(fstate_idx)))
 PL_ENS(fstate_idx != __CPROVER_old(fstate_idx) || vg_saw_preproc != __CPROVER_old(vg_saw_preproc) ||
        ((fstate[fstate_idx].flags ^ __CPROVER_old(fstate[fstate_idx].flags)) & FILE_PREPROC) == 0)
-#ifdef VERIF_ROLE_CALLEE_parse_line
-/* ---- callee role (units/C09/parse.c, bounded): the clauses proved above for the ARBITRARY ghost indices,
- *      instantiated at the constant stack slots the bounded caller reasons about, and the caller's bounds
- *      on the input (VERIF_MAX_NEST nested files, VERIF_MAX_CTX nested contexts, no %preproc directive) -- */
-__CPROVER_requires(CTXID_AT(0) && CTXID_AT(1) && CTXID_AT(2) && CTXID_AT(3))
-PL_ENS(CTXID_AT(0) && CTXID_AT(1) && CTXID_AT(2) && CTXID_AT(3))
-PL_ENS(!(1 < __CPROVER_old(fstate_idx)) || PL_FS_KEEP(1))
-__CPROVER_ensures(ctx_state_idx <= VERIF_MAX_CTX && vg_saw_preproc == __CPROVER_old(vg_saw_preproc))
-#endif
+/* the file-stack table moves only when a push has to grow it */
+PL_ENS((unsigned int) __CPROVER_old(fstate_idx) + 1 == __CPROVER_old(fstate_cnt) ||
+       (fstate == __CPROVER_old(fstate) && fstate_cnt == __CPROVER_old(fstate_cnt)))
 /* ---- C11 spawn freedom: a process is spawned only after the directive word "preproc " was
  *      matched, or shell_expand read a backquote / matched %exec( --------------------------- */
 __CPROVER_ensures(vg_spawned == __CPROVER_old(vg_spawned) || vg_saw_preproc != __CPROVER_old(vg_saw_preproc) ||
                   vg_saw_bq != __CPROVER_old(vg_saw_bq) || vg_saw_exec != __CPROVER_old(vg_saw_exec))
 ;
+#else /* VERIF_PL_PROJECT_FSTACK */
+/* PROJECTION of the contract above on (line buffer, file stack, sequencing and stream ghosts), for the caller
+ * spifconf_parse (unit C09.parse).  Every clause below is a clause of the full contract (or its instance at the
+ * constant slot 1, see the callee-role block above); the clauses about the context table / context stack /
+ * handler log are left out on BOTH sides: spifconf_parse itself never touches that component (its own assigns
+ * clause in C09.parse does not list it, so a direct write would fail the frame check), it only reaches it
+ * through parse_line, whose full contract re-establishes its own context-side preconditions (C09.parse_line).
+ * The input bounds of the bounded caller are stated here as in the callee-role block: no %preproc directive. */
+void spifconf_parse_line(FILE *fp, spif_charptr_t buff)
+__CPROVER_requires(fp != NULL)
+__CPROVER_requires(vg_n1 >= CONFIG_BUFF && vg_n1 <= VCAP && __CPROVER_is_fresh(buff, vg_n1) && vg_fg_len < CONFIG_BUFF && buff[vg_fg_len] == 0)
+__CPROVER_requires(FSTK_INV)
+__CPROVER_requires(FSFP_AT(vg_k2) && fstate_idx >= 1 && fstate[fstate_idx].fp != NULL)
+__CPROVER_requires(vg_deliverable == vg_pl_calls + 1 && !vg_fg_mid && !vg_fg_hdr)
+/* the bounded caller keeps the table large enough: a push never grows it, so (last PL_ENS of the full contract)
+ * neither the table pointer nor its capacity is assigned */
+__CPROVER_requires((unsigned int) fstate_idx + 1 < fstate_cnt)
+__CPROVER_assigns(__CPROVER_object_whole(buff), spifconf_vars)
+__CPROVER_assigns(fstate_idx, __CPROVER_object_whole(fstate))
+__CPROVER_assigns(vg_sp, vg_ct, vg_ev, vg_fg, vg_tf, vg_st)
+__CPROVER_ensures(vg_exc == __CPROVER_old(vg_exc) && vg_os0 == __CPROVER_old(vg_os0))
+__CPROVER_ensures(vg_saw_preproc == __CPROVER_old(vg_saw_preproc))
+__CPROVER_ensures(FSTK_POST && fstate_idx >= 1)
+__CPROVER_ensures(FSFP_AT(vg_k2))
+__CPROVER_ensures(vg_pl_calls == __CPROVER_old(vg_pl_calls) + 1 && vg_deliverable == __CPROVER_old(vg_deliverable) && !vg_fg_mid && !vg_fg_hdr)
+__CPROVER_ensures(vg_fg_budget <= __CPROVER_old(vg_fg_budget))
+__CPROVER_ensures(fstate_idx == __CPROVER_old(fstate_idx) || fstate_idx == __CPROVER_old(fstate_idx) + 1)
+__CPROVER_ensures(!(vg_k < __CPROVER_old(fstate_idx)) || PL_FS_KEEP(vg_k))
+__CPROVER_ensures(!(1 < __CPROVER_old(fstate_idx)) || PL_FS_KEEP(1))
+__CPROVER_ensures(fstate_idx == __CPROVER_old(fstate_idx) ||
+                  (vg_open_streams == __CPROVER_old(vg_open_streams) + 1 && fstate_idx <= VERIF_MAX_NEST &&
+                   __CPROVER_is_fresh(fstate[fstate_idx].fp, sizeof(FILE)) && fstate[fstate_idx].line == 1 &&
+                   fstate[fstate_idx].flags == 0 && fstate[fstate_idx].outfile == NULL && fstate[fstate_idx].path != NULL))
+__CPROVER_ensures(fstate_idx != __CPROVER_old(fstate_idx) || vg_open_streams == __CPROVER_old(vg_open_streams))
+__CPROVER_ensures(fstate[fstate_idx].fp != NULL)
+__CPROVER_ensures(fstate_idx == __CPROVER_old(fstate_idx) ? (fstate[fstate_idx].path == __CPROVER_old(fstate[fstate_idx].path) &&
+                                                            fstate[fstate_idx].line == __CPROVER_old(fstate[fstate_idx].line))
+                                                         : PL_FS_KEEP(__CPROVER_old(fstate_idx)))
+__CPROVER_ensures(fstate_idx != __CPROVER_old(fstate_idx) ||
+                  ((fstate[fstate_idx].flags ^ __CPROVER_old(fstate[fstate_idx].flags)) & FILE_PREPROC) == 0)
+;
+#endif /* VERIF_PL_PROJECT_FSTACK */
 #endif /* VERIF_CT_PARSE_LINE */
 
 #endif /* VERIF_CONF_H */
